@@ -68,12 +68,17 @@ StepN(M, st) ==
       vDwr == IF feed /\ inSvc(c0) /\ ~closed(c0) /\ ~M0.stalled[c0] /\ Len(ms) = 1 /\ IsDwr(ms[1]) /\ ms[1].oh # ""
                  /\ ~\E j \in 1..Len(out) : out[j].ev = "tx" /\ out[j].c = c0 /\ IsDwa(out[j].m) /\ out[j].m.rc = 2001 /\ Key(out[j].m) = Key(ms[1])
               THEN {"dwr_not_answered_2001"} ELSE {}
+      \* ... with the node's Origin-State-Id (judged on the content digest of the transmitted answer)
+      vDwaOsi == IF feed /\ inSvc(c0) /\ ~closed(c0) /\ Len(ms) = 1 /\ IsDwr(ms[1])
+                 THEN {"dwa_without_node_origin_state_id" : j \in {k \in 1..Len(out) : out[k].ev = "tx" /\ out[k].c = c0 /\ IsDwa(out[k].m) /\
+                          Key(out[k].m) = Key(ms[1]) /\ "x" \in DOMAIN out[k].m /\ out[k].m.x.osi # MCfg.node.osi}}
+                 ELSE {}
       \* a connection whose peer neither reads nor sends: the watchdog request cannot be seen on the wire, but idle timeout +
       \* DWA timeout (each judged at a timer check) after the last received byte the connection must have been closed
       vStalled == {"silent_stalled_connection_not_closed" : c \in {x \in CIds :
                      inSvc(x) /\ M0.stalled[x] /\ ~closed(x) /\ ~((feed \/ IsRx(st)) /\ x = st.act.c) /\
                      now >= M0.lastRx[x] + idle(x) + dwaT(x) + 2 * (MCfg.node.wakeup + 1)}}
-      sigs == vSent \cup vMissing \cup vDwa \cup vWaitSt \cup vTo \cup vEarly \cup vReason \cup vDwr \cup vStalled
+      sigs == vSent \cup vMissing \cup vDwa \cup vWaitSt \cup vTo \cup vEarly \cup vReason \cup vDwr \cup vDwaOsi \cup vStalled
       M1 == [M0 EXCEPT !.viol = @ \cup {[sig |-> s, at |-> M0.i] : s \in sigs}]
       \* ---- state update
       succIn(c) == \E j \in 1..Len(out) : out[j].ev = "tx" /\ out[j].c = c /\ out[j].m.cmd = "CE" /\ ~out[j].m.req /\ out[j].m.rc = 2001
